@@ -161,7 +161,11 @@ def run_scenarios(scens, keep_ctx=False, project_what=None, stats=None):
                 except Exception:
                     pass
             impl.finish_env(sc, ctx, vals)
-            out = impl.run(sc, ctx)
+            try:
+                impl.register_globals(sc, ctx)
+                out = impl.run(sc, ctx)
+            finally:
+                impl.unregister_globals(sc)
             inter = sc.pop('_intermediate', None)
             if inter:
                 impl.finish_env(sc, ctx, vals + inter)
